@@ -5,9 +5,10 @@ use crate::{
     fbig::FBig,
     helper_macros,
     repr::{Context, Repr, Word},
-    round::{Round, Rounded},
+    round::{Round, Rounded, Rounding},
 };
 use core::ops::{Mul, MulAssign};
+use dashu_base::Approximation::*;
 
 impl<'l, 'r, R: Round, const B: Word> Mul<&'r FBig<R, B>> for &'l FBig<R, B> {
     type Output = FBig<R, B>;
@@ -119,6 +120,15 @@ impl<R: Round, const B: Word> FBig<R, B> {
     }
 }
 
+/// An exact final rounding doesn't make the result exact when an operand has been rounded before.
+#[inline]
+fn mark_inexact<T>(result: Rounded<T>, operand_rounded: bool) -> Rounded<T> {
+    match result {
+        Exact(v) if operand_rounded => Inexact(v, Rounding::NoOp),
+        other => other,
+    }
+}
+
 impl<R: Round> Context<R> {
     /// Multiply two floating point numbers under this context.
     ///
@@ -151,9 +161,13 @@ impl<R: Round> Context<R> {
             usize::MAX
         };
 
+        // (the result is not exact if an operand was rounded while shrinking)
+        let mut shrink_inexact = false;
         let lhs_shrink;
         let lhs_repr = if lhs.digits() > max_precision {
-            lhs_shrink = Context::<R>::new(max_precision).repr_round_ref(lhs).value();
+            let rounded = Context::<R>::new(max_precision).repr_round_ref(lhs);
+            shrink_inexact |= matches!(rounded, Inexact(_, _));
+            lhs_shrink = rounded.value();
             &lhs_shrink
         } else {
             lhs
@@ -161,7 +175,9 @@ impl<R: Round> Context<R> {
 
         let rhs_shrink;
         let rhs_repr = if rhs.digits() > max_precision {
-            rhs_shrink = Context::<R>::new(max_precision).repr_round_ref(rhs).value();
+            let rounded = Context::<R>::new(max_precision).repr_round_ref(rhs);
+            shrink_inexact |= matches!(rounded, Inexact(_, _));
+            rhs_shrink = rounded.value();
             &rhs_shrink
         } else {
             rhs
@@ -171,7 +187,7 @@ impl<R: Round> Context<R> {
             &lhs_repr.significand * &rhs_repr.significand,
             lhs_repr.exponent + rhs_repr.exponent,
         );
-        self.repr_round(repr).map(|v| FBig::new(v, *self))
+        mark_inexact(self.repr_round(repr), shrink_inexact).map(|v| FBig::new(v, *self))
     }
 
     /// Calculate the square of the floating point number under this context.
@@ -200,16 +216,19 @@ impl<R: Round> Context<R> {
             usize::MAX
         };
 
+        let mut shrink_inexact = false;
         let f_shrink;
         let f_repr = if f.digits() > max_precision {
-            f_shrink = Context::<R>::new(max_precision).repr_round_ref(f).value();
+            let rounded = Context::<R>::new(max_precision).repr_round_ref(f);
+            shrink_inexact |= matches!(rounded, Inexact(_, _));
+            f_shrink = rounded.value();
             &f_shrink
         } else {
             f
         };
 
         let repr = Repr::new(f_repr.significand.sqr().into(), 2 * f_repr.exponent);
-        self.repr_round(repr).map(|v| FBig::new(v, *self))
+        mark_inexact(self.repr_round(repr), shrink_inexact).map(|v| FBig::new(v, *self))
     }
 
     /// Calculate the cubic of the floating point number under this context.
@@ -238,15 +257,18 @@ impl<R: Round> Context<R> {
             usize::MAX
         };
 
+        let mut shrink_inexact = false;
         let f_shrink;
         let f_repr = if f.digits() > max_precision {
-            f_shrink = Context::<R>::new(max_precision).repr_round_ref(f).value();
+            let rounded = Context::<R>::new(max_precision).repr_round_ref(f);
+            shrink_inexact |= matches!(rounded, Inexact(_, _));
+            f_shrink = rounded.value();
             &f_shrink
         } else {
             f
         };
 
         let repr = Repr::new(f_repr.significand.cubic(), 3 * f_repr.exponent);
-        self.repr_round(repr).map(|v| FBig::new(v, *self))
+        mark_inexact(self.repr_round(repr), shrink_inexact).map(|v| FBig::new(v, *self))
     }
 }
